@@ -44,11 +44,6 @@ func verifMapSeed(seed uint64, on bool)
 func verifMapDrawCount() uint64
 
 func main() {
-	dbgPtr("main-start")
-	if os.Getenv("VERIF_DEBUG_PTR") != "" {
-		buf := make([]byte, 1<<16)
-		fmt.Fprintf(os.Stderr, "GOROUTINES %d\n%s\n", runtime.NumGoroutine(), buf[:runtime.Stack(buf, true)])
-	}
 	if len(os.Args) >= 2 && os.Args[1] == "cli" {
 		os.Args = append([]string{"k8snetpolicy"}, os.Args[2:]...)
 		cli.Execute()
@@ -68,9 +63,7 @@ func main() {
 		}
 	}
 	gcOff := debug.SetGCPercent(-1) == -1
-	dbgPtr("before-read")
 	in, err := io.ReadAll(os.Stdin)
-	dbgPtr("after-read")
 	if err != nil {
 		tr.Fail = "read job: " + err.Error()
 		emit()
@@ -93,7 +86,6 @@ func main() {
 		debug.SetGCPercent(100)
 	}
 
-	dbgPtr("before-seed")
 	verifMapSeed(j.MapSeed, true)
 	h := newHistory(j.CacheSize)
 	for i := range j.Steps {
@@ -110,14 +102,6 @@ func main() {
 	runtime.ReadMemStats(&ms)
 	tr.NumGC = ms.NumGC
 	tr.Goroutines = runtime.NumGoroutine()
-	if os.Getenv("VERIF_DEBUG_PTR") != "" {
-		b, _ := os.ReadFile("/proc/self/status")
-		for _, l := range strings.Split(string(b), "\n") {
-			if strings.HasPrefix(l, "Threads") {
-				fmt.Fprintln(os.Stderr, "PTR", l)
-			}
-		}
-	}
 	if tr.Goroutines > 1 {
 		buf := make([]byte, 1<<16)
 		tr.Stacks = string(buf[:runtime.Stack(buf, true)])
@@ -171,17 +155,6 @@ func frames() []string {
 		}
 	}
 	return res
-}
-
-var dbgSink []*[4096]byte
-
-func dbgPtr(tag string) {
-	if os.Getenv("VERIF_DEBUG_PTR") != "" {
-		p := new([4096]byte)
-		q := new([64]byte)
-		dbgSink = append(dbgSink, p)
-		fmt.Fprintf(os.Stderr, "PTR %s %p %p\n", tag, p, q)
-	}
 }
 
 func sha(s string) string {
@@ -255,7 +228,6 @@ func p2pConnStr(c connlist.Peer2PeerConnection) string {
 }
 
 func stepList(st *job.Step, ev *job.Event, keep bool) {
-	dbgPtr("list-start")
 	opts := []connlist.ConnlistAnalyzerOption{connlist.WithLogger(quietLogger()), connlist.WithMuteErrsAndWarns()}
 	if st.Loud {
 		opts = []connlist.ConnlistAnalyzerOption{connlist.WithLogger(logger.NewDefaultLogger())}
@@ -302,9 +274,6 @@ func stepList(st *job.Step, ev *job.Event, keep bool) {
 	ps := make([]string, 0, len(peers))
 	for _, p := range peers {
 		ps = append(ps, p.String())
-	}
-	if os.Getenv("VERIF_DEBUG_PTR") != "" && len(peers) > 0 {
-		fmt.Fprintf(os.Stderr, "PTR %p %p n=%d\n", peers[0], peers[len(peers)-1], len(peers))
 	}
 	ev.PeerSha = sha(strings.Join(ps, "\n"))
 	sort.Strings(ps)
